@@ -270,6 +270,10 @@ func Now() time.Time {
 	return t
 }
 
+// Since and Until stand in for time.Since and time.Until (which read the clock themselves).
+func Since(t time.Time) time.Duration { return Now().Sub(t) }
+func Until(t time.Time) time.Duration { return t.Sub(Now()) }
+
 // CurrentUser stands in for user.Current.
 func CurrentUser() (*user.User, error) {
 	st := cur
@@ -500,6 +504,9 @@ func (f *File) Read(p []byte) (int, error) {
 		st.event("read %s off=%d n=0", f.spec.Path, f.off)
 		return 0, nil
 	}
+	if plan.DelayNano > 0 {
+		st.now += plan.DelayNano
+	}
 	n := len(p)
 	switch plan.Chunk {
 	case "one":
@@ -714,6 +721,191 @@ func Gosched() {
 		return
 	}
 	runtime.Gosched()
+}
+
+// simCPUs is the processor count of the simulated machine (0: the host's).
+var simCPUs int
+
+// SetCPUs fixes what runtime.GOMAXPROCS(n) and runtime.NumCPU() report to the code under test (rule R12).
+func SetCPUs(n int) { simCPUs = n }
+
+// GOMAXPROCS stands in for runtime.GOMAXPROCS: on the simulated machine the setting cannot be changed.
+func GOMAXPROCS(n int) int {
+	if simCPUs > 0 {
+		return simCPUs
+	}
+	return runtime.GOMAXPROCS(n)
+}
+
+// NumCPU stands in for runtime.NumCPU.
+func NumCPU() int {
+	if simCPUs > 0 {
+		return simCPUs
+	}
+	return runtime.NumCPU()
+}
+
+// Mutex stands in for sync.Mutex (rule R11). Acquiring it is a schedule point, and a goroutine that has
+// to wait blocks on a channel - the kind of blocking a synctest bubble recognises as durable - so the
+// cooperative scheduler keeps control while another goroutine is parked inside the critical section.
+// Waiters are served first come first served; which goroutine comes first is the scheduler's decision.
+type Mutex struct {
+	mu      sync.Mutex
+	held    bool
+	waiters []chan struct{}
+}
+
+func (m *Mutex) Lock() {
+	Yield("sync.Mutex.Lock")
+	m.mu.Lock()
+	if !m.held {
+		m.held = true
+		m.mu.Unlock()
+		return
+	}
+	ch := make(chan struct{})
+	m.waiters = append(m.waiters, ch)
+	m.mu.Unlock()
+	<-ch
+}
+
+func (m *Mutex) TryLock() bool {
+	m.mu.Lock()
+	defer m.mu.Unlock()
+	if m.held {
+		return false
+	}
+	m.held = true
+	return true
+}
+
+func (m *Mutex) Unlock() {
+	m.mu.Lock()
+	if !m.held {
+		m.mu.Unlock()
+		panic("sync: unlock of unlocked mutex")
+	}
+	if len(m.waiters) > 0 {
+		ch := m.waiters[0]
+		m.waiters = m.waiters[1:]
+		m.mu.Unlock()
+		close(ch) // ownership is handed over
+		return
+	}
+	m.held = false
+	m.mu.Unlock()
+}
+
+// RWMutex stands in for sync.RWMutex (rule R11), like Mutex; a waiting writer blocks later readers.
+type RWMutex struct {
+	mu      sync.Mutex
+	readers int
+	writer  bool
+	q       []rwWaiter
+}
+
+type rwWaiter struct {
+	ch    chan struct{}
+	write bool
+}
+
+func (m *RWMutex) Lock() {
+	Yield("sync.RWMutex.Lock")
+	m.mu.Lock()
+	if !m.writer && m.readers == 0 && len(m.q) == 0 {
+		m.writer = true
+		m.mu.Unlock()
+		return
+	}
+	ch := make(chan struct{})
+	m.q = append(m.q, rwWaiter{ch, true})
+	m.mu.Unlock()
+	<-ch
+}
+
+func (m *RWMutex) Unlock() {
+	m.mu.Lock()
+	if !m.writer {
+		m.mu.Unlock()
+		panic("sync: Unlock of unlocked RWMutex")
+	}
+	m.writer = false
+	m.wake()
+	m.mu.Unlock()
+}
+
+func (m *RWMutex) RLock() {
+	Yield("sync.RWMutex.RLock")
+	m.mu.Lock()
+	if !m.writer && len(m.q) == 0 {
+		m.readers++
+		m.mu.Unlock()
+		return
+	}
+	ch := make(chan struct{})
+	m.q = append(m.q, rwWaiter{ch, false})
+	m.mu.Unlock()
+	<-ch
+}
+
+func (m *RWMutex) RUnlock() {
+	m.mu.Lock()
+	if m.readers <= 0 {
+		m.mu.Unlock()
+		panic("sync: RUnlock of unlocked RWMutex")
+	}
+	m.readers--
+	m.wake()
+	m.mu.Unlock()
+}
+
+func (m *RWMutex) TryLock() bool {
+	m.mu.Lock()
+	defer m.mu.Unlock()
+	if m.writer || m.readers > 0 {
+		return false
+	}
+	m.writer = true
+	return true
+}
+
+func (m *RWMutex) TryRLock() bool {
+	m.mu.Lock()
+	defer m.mu.Unlock()
+	if m.writer || len(m.q) > 0 {
+		return false
+	}
+	m.readers++
+	return true
+}
+
+// RLocker returns a sync.Locker whose Lock and Unlock are RLock and RUnlock.
+func (m *RWMutex) RLocker() sync.Locker { return (*rlocker)(m) }
+
+type rlocker RWMutex
+
+func (r *rlocker) Lock()   { (*RWMutex)(r).RLock() }
+func (r *rlocker) Unlock() { (*RWMutex)(r).RUnlock() }
+
+// wake admits the waiters at the head of the queue that can go now (called with m.mu held).
+func (m *RWMutex) wake() {
+	for len(m.q) > 0 {
+		w := m.q[0]
+		if w.write {
+			if m.readers == 0 && !m.writer {
+				m.writer = true
+				m.q = m.q[1:]
+				close(w.ch)
+			}
+			return
+		}
+		if m.writer {
+			return
+		}
+		m.readers++
+		m.q = m.q[1:]
+		close(w.ch)
+	}
 }
 
 var selectHook func(site string, n int) []int
